@@ -144,6 +144,20 @@ def run_registry(pid, spec, tier, seed, replay=None):
     return {"violations": viols, "crashes": crashes, "coverage": cov, "trace_files": traces}
 
 
+def run_c17(pid, spec, tier, seed, replay=None):
+    """C17: single-tunnel identity observations (TunnelMon) plus RPCs spread over several reverse tunnels (RegistryMon)"""
+    res = run(pid, dict(spec, runner=None), tier, seed, replay)
+    if replay:
+        return res
+    r2 = run_registry(pid, spec, tier, seed, None)
+    res["violations"] += r2["violations"]
+    res["crashes"] += r2["crashes"]
+    for k in ("states", "transitions", "traces_validated_against_impl", "evaluations", "distinct_nontrivial"):
+        res["coverage"][k] += r2["coverage"][k]
+    res["coverage"]["registry_histories"] = r2["coverage"]["traces_validated_against_impl"]
+    return res
+
+
 def run_c05(pid, spec, tier, seed, replay=None):
     """C05: (1) the sender core: TLC checks FlowSender.tla exhaustively (safety + liveness), every transition of
     its stepped state graph is replayed against the real defaultSender through the yield gates and the recordings
@@ -206,6 +220,9 @@ PROPS = {
     "C11": {"level": "model_checking", "hang": True,
             "quick": lambda s: gen.fam_neg(s),
             "thorough": lambda s: gen.fam_neg(s) + gen.fam_data(s, 120)},
+    "C08": {"level": "model_checking", "hang": True, "also": ["C09_SrvTunnelLevel"],
+            "quick": lambda s: gen.fam_ids(s, 64) + [x for x in gen.fam_hostile_srv(s) if "-new-" in x["name"] or "unknown-sid" in x["name"] or "-sid0" in x["name"] or "negative" in x["name"] or "disposed" in x["name"]],
+            "thorough": lambda s: gen.fam_ids(s, 600) + gen.fam_hostile_srv(s) + gen.fam_gates(s, 4, gates=["cli.alloc", "cli.new.sent", "car.sent.c2s.new"])},
     "C09": {"level": "model_checking", "hang": True,
             "quick": lambda s: gen.fam_hostile_srv(s) + gen.fam_hostile_cli(s),
             "thorough": lambda s: gen.fam_hostile_srv(s) + gen.fam_hostile_cli(s)},
@@ -216,6 +233,9 @@ PROPS = {
     "C12": {"level": "model_checking", "runner": run_registry, "engine": "tlc-registry", "hang": True,
             "also": ["C14_ServeLeavesNothing", "C14_RegistryEmptyAtEnd", "C10_NoNewTunnels", "C10_StopMeansStopped"],
             "technique": "TLC model checking of Registry.tla (two-step registration, unregister, round robin, callbacks) + TLA+ trace validation of multi-tunnel histories of the real handler (RegistryMon.tla)"},
+    "C17": {"level": "model_checking", "runner": run_c17,
+            "quick": lambda s: gen.fam_meta(s, 96, gated=False) + gen.fam_data(s, 32) + gen.fam_ids(s, 16),
+            "thorough": lambda s: gen.fam_meta(s, 600, gated=False) + gen.fam_data(s, 200) + gen.fam_ids(s, 100)},
     "C18": {"level": "model_checking", "runner": run_c18, "engine": "tlc-grpc-timeout",
             "technique": "TLA+ reference function (GrpcTimeout.tla); TLC enumerates the input domain and validates every observed handler deadline",
             "text": "the gRPC wire rule for grpc-timeout is a total TLA+ function; TLC enumerates the structured input domain completely, each input is executed "
